@@ -781,14 +781,43 @@ End Neutral.
 (* ================================================================== *)
 (** * H. Consequences                                                   *)
 
+(* The clock hypothesis of the consequences is PER KEY: the readings of the lock regions of
+   the limiter of k, in the order of the ghost log, are non-decreasing (these regions exclude
+   each other and each reads the clock inside).  Nothing is asked of the readings of other
+   limiters or of the order in which regions of different limiters are listed in the schedule
+   (audit 2, item 3b: the forced schedules of suite overlap execute a parked region with the
+   reading it took earlier, so their label sequence is not globally monotone).  A schedule
+   whose readings are globally non-decreasing satisfies it for every key: run_key_mono /
+   run_key_mono_from below; the schedule-level forms are kept as corollaries. *)
+Lemma head_grid_bound_key ts sch c' k W :
+  forallb initial ts = true -> run Head (init_config ts) sch = Some c' ->
+  mono (map sev_now (log_of k (c_log c'))) -> key_valid k = true -> 0 < W ->
+  const_window W (log_of k (c_log c')) ->
+  bounded_right W 0 (entries_of k (c_trace c')).
+Proof.
+  intros Hi HR HM Hk HW HC. rewrite (head_refines ts sch c' k Hi HR Hk).
+  apply single_bounded_fresh; [exact HW | exact HC | exact HM].
+Qed.
+
 Lemma head_grid_bound ts sch c' k W :
   forallb initial ts = true -> run Head (init_config ts) sch = Some c' ->
   mono (map l_now sch) -> key_valid k = true -> 0 < W ->
   const_window W (log_of k (c_log c')) ->
   bounded_right W 0 (entries_of k (c_trace c')).
 Proof.
-  intros Hi HR HM Hk HW HC. rewrite (head_refines ts sch c' k Hi HR Hk).
-  apply single_bounded_fresh; [exact HW | exact HC | eapply run_key_mono; eassumption].
+  intros Hi HR HM. apply (head_grid_bound_key ts sch c' k W Hi HR). eapply run_key_mono; eassumption.
+Qed.
+
+Lemma head_grid_bound_const_key ts sch c' k wd :
+  forallb initial ts = true -> run Head (init_config ts) sch = Some c' ->
+  mono (map sev_now (log_of k (c_log c'))) -> key_valid k = true ->
+  0 < wW wd -> wSpillOn wd = false -> requests_use k wd ts ->
+  forall j, count (in_right (wW wd) j) (entries_of k (c_trace c'))
+            <= scaled_quota (wAllowed wd) (wParts wd).
+Proof.
+  intros Hi HR HM Hk HW Hs HU j. rewrite (head_refines ts sch c' k Hi HR Hk).
+  apply single_window_bound; try assumption.
+  eapply run_const_data; eassumption.
 Qed.
 
 Lemma head_grid_bound_const ts sch c' k wd :
@@ -798,10 +827,8 @@ Lemma head_grid_bound_const ts sch c' k wd :
   forall j, count (in_right (wW wd) j) (entries_of k (c_trace c'))
             <= scaled_quota (wAllowed wd) (wParts wd).
 Proof.
-  intros Hi HR HM Hk HW Hs HU j. rewrite (head_refines ts sch c' k Hi HR Hk).
-  apply single_window_bound; try assumption.
-  - eapply run_const_data; eassumption.
-  - eapply run_key_mono; eassumption.
+  intros Hi HR HM. apply (head_grid_bound_const_key ts sch c' k wd Hi HR).
+  eapply run_key_mono; eassumption.
 Qed.
 
 Lemma mono_from_ge lo l : mono_from lo l -> Forall (fun x => lo <= x) l.
@@ -827,6 +854,33 @@ Proof.
   inversion HF; subst. split; assumption.
 Qed.
 
+(* globally non-decreasing readings from lo on: every key's readings are so too *)
+Lemma run_key_mono_from v ts sch c' k lo :
+  run v (init_config ts) sch = Some c' -> mono_from lo (map l_now sch) ->
+  mono_from lo (map sev_now (log_of k (c_log c'))).
+Proof.
+  intros HR HM. apply mono_from_of_mono_ge.
+  - eapply run_key_mono; [exact HR|]. eapply mono_from_mono. exact HM.
+  - apply log_of_nows_ge.
+    apply (run_log_ge v sch (init_config ts) c' lo HR).
+    + apply mono_from_ge in HM. rewrite Forall_map in HM. exact HM.
+    + constructor.
+Qed.
+
+Lemma head_rejected_used_up_key ts sch c' k W pre e post :
+  forallb initial ts = true -> run Head (init_config ts) sch = Some c' ->
+  mono_from 0 (map sev_now (log_of k (c_log c'))) -> key_valid k = true -> 0 < W ->
+  const_window W (log_of k (c_log c')) ->
+  entries_of k (c_trace c') = pre ++ e :: post ->
+  s_verdict e = Block -> 0 < s_now e ->
+  exists j, in_closed W j (s_now e) = true /\ s_lim e <= count (in_closed W j) pre.
+Proof.
+  intros Hi HR HM Hk HW HC HE HV HB.
+  rewrite (head_refines ts sch c' k Hi HR Hk) in HE.
+  exact (single_exact W 0 HW (log_of k (c_log c')) None [] 0 (conj eq_refl eq_refl) (Z.le_refl 0)
+           HC HM pre e post HE HV HB).
+Qed.
+
 Lemma head_rejected_used_up ts sch c' k W pre e post :
   forallb initial ts = true -> run Head (init_config ts) sch = Some c' ->
   mono_from 0 (map l_now sch) -> key_valid k = true -> 0 < W ->
@@ -835,17 +889,8 @@ Lemma head_rejected_used_up ts sch c' k W pre e post :
   s_verdict e = Block -> 0 < s_now e ->
   exists j, in_closed W j (s_now e) = true /\ s_lim e <= count (in_closed W j) pre.
 Proof.
-  intros Hi HR HM Hk HW HC HE HV HB.
-  rewrite (head_refines ts sch c' k Hi HR Hk) in HE.
-  assert (HM' : mono_from 0 (map sev_now (log_of k (c_log c')))).
-  { apply mono_from_of_mono_ge.
-    - eapply run_key_mono; [exact HR|]. eapply mono_from_mono. exact HM.
-    - apply log_of_nows_ge.
-      apply (run_log_ge Head sch (init_config ts) c' 0 HR).
-      + apply mono_from_ge in HM. rewrite Forall_map in HM. exact HM.
-      + constructor. }
-  exact (single_exact W 0 HW (log_of k (c_log c')) None [] 0 (conj eq_refl eq_refl) (Z.le_refl 0)
-           HC HM' pre e post HE HV HB).
+  intros Hi HR HM. apply (head_rejected_used_up_key ts sch c' k W pre e post Hi HR).
+  eapply run_key_mono_from; eassumption.
 Qed.
 
 (* erasing the collections: the requests take the same steps, the registry map is the same,
@@ -866,9 +911,9 @@ Proof.
   - apply (inv_trace c' (run_head_inv _ _ _ (inv_init ts Hi) HR) k Hk).
 Qed.
 
-Lemma head_metrics_neutral ts sch c' k wd :
+Lemma head_metrics_neutral_key ts sch c' k wd :
   forallb initial ts = true -> run Head (init_config ts) sch = Some c' ->
-  mono_from 0 (map l_now sch) -> key_valid k = true ->
+  mono_from 0 (map sev_now (log_of k (c_log c'))) -> key_valid k = true ->
   0 < wW wd -> wSpillOn wd = false -> requests_use k wd ts ->
   Forall (fun e => sev_now e mod wW wd <> 0) (log_of k (c_log c')) ->
   exists c'', run Head (init_config ts) (erase ts sch) = Some c'' /\
@@ -880,14 +925,23 @@ Proof.
   exists d. split; [exact HD|]. split; [exact Em|].
   destruct (HE k Hk) as [E1 E2]. rewrite E1, E2. symmetry.
   apply (neutral wd HW Hs (log_of k (c_log c')) 0 init init (Z.le_refl 0)).
-  - apply mono_from_of_mono_ge.
-    + eapply run_key_mono; [exact HR|]. eapply mono_from_mono. exact HM.
-    + apply log_of_nows_ge. apply (run_log_ge Head sch (init_config ts) c' 0 HR).
-      * apply mono_from_ge in HM. rewrite Forall_map in HM. exact HM.
-      * constructor.
+  - exact HM.
   - eapply run_const_data; eassumption.
   - exact HO.
   - left. split; [reflexivity | left; reflexivity].
+Qed.
+
+Lemma head_metrics_neutral ts sch c' k wd :
+  forallb initial ts = true -> run Head (init_config ts) sch = Some c' ->
+  mono_from 0 (map l_now sch) -> key_valid k = true ->
+  0 < wW wd -> wSpillOn wd = false -> requests_use k wd ts ->
+  Forall (fun e => sev_now e mod wW wd <> 0) (log_of k (c_log c')) ->
+  exists c'', run Head (init_config ts) (erase ts sch) = Some c'' /\
+              c_map c'' = c_map c' /\
+              entries_of k (c_trace c'') = entries_of k (c_trace c').
+Proof.
+  intros Hi HR HM. apply (head_metrics_neutral_key ts sch c' k wd Hi HR).
+  eapply run_key_mono_from; eassumption.
 Qed.
 
 (* --- no deadlock: an unfinished thread can always be scheduled --- *)
